@@ -32,6 +32,7 @@ def main():
     ap.add_argument("--pkg", default="go/mcap")
     ap.add_argument("--run", default=None)
     ap.add_argument("--tags", default="")
+    ap.add_argument("--extra", default="", help="comma separated extra demo files to copy next to the demo test")
     a = ap.parse_args()
     wt = "/tmp/wtc/%s" % a.id
     sh("git -C /repo worktree remove --force %s" % wt)
@@ -46,6 +47,9 @@ def main():
         src = open(demo).read()
         runre = a.run or "|".join(re.findall(r"^func (Test\w+)\(", src, re.M))
         shutil.copy(demo, os.path.join(pkg, "zz_seed_demo_test.go"))
+        extras = [x for x in a.extra.split(",") if x]
+        for x in extras:
+            shutil.copy(os.path.join(a.outdir, x), os.path.join(pkg, x))
         base_fail, _, _ = failing_tests(pkg)
         base_fail = [t for t in base_fail if not re.match(runre + "$", t.split("/")[0])]
         tags = ("-tags %s " % a.tags) if a.tags else ""
@@ -57,6 +61,8 @@ def main():
         rc1, out1 = sh("go test %s-count=1 -run '%s' . 2>&1 | tail -25" % (tags, runre), cwd=pkg)
         fails_after = "FAIL" in out1
         os.remove(os.path.join(pkg, "zz_seed_demo_test.go"))
+        for x in extras:
+            os.remove(os.path.join(pkg, x))
         after_fail, _, _ = failing_tests(pkg)
         res.update({"demo_passes_on_unchanged_tree": ok_before, "builds_with_change": rcb == 0, "demo_fails_with_change": fails_after,
                     "existing_tests_failing_before": base_fail, "existing_tests_failing_after": after_fail,
@@ -70,7 +76,7 @@ def main():
         if confirmed:
             d = os.path.join(VERIF, "seeded", a.id)
             os.makedirs(d, exist_ok=True)
-            for f in ("patch.diff", "demo_test.go", "DESCRIPTION.md", "RUN.txt"):
+            for f in ["patch.diff", "demo_test.go", "DESCRIPTION.md", "RUN.txt"] + extras:
                 if os.path.exists(os.path.join(a.outdir, f)):
                     shutil.copy(os.path.join(a.outdir, f), d)
             desc = open(os.path.join(a.outdir, "DESCRIPTION.md")).read() if os.path.exists(os.path.join(a.outdir, "DESCRIPTION.md")) else ""
